@@ -26,6 +26,7 @@ type Adversary struct {
 	Fired map[string]int
 	strat []wstrat
 	total int
+	allowBare bool // may send standalone PREPREPAREs for views above 0 (the recorded C07 known finding)
 }
 
 type wstrat struct {
@@ -67,6 +68,9 @@ func NewAdversary(w *World, p *Profile) *Adversary {
 			}
 		}
 		a.total += a.strat[i].w
+		if a.strat[i].name == "barePP" && a.strat[i].w > 0 {
+			a.allowBare = true
+		}
 	}
 	return a
 }
@@ -164,6 +168,13 @@ func (a *Adversary) newBlock(h uint64, bad bool) *spi.Blk {
 func (a *Adversary) send(from, to string, raw *interfaces.ConsensusRawMessage) {
 	if raw == nil || !a.w.IsCorrect(to) {
 		return
+	}
+	if !a.allowBare {
+		// workloads of the other properties leave the recorded C07 finding out: no authentic standalone PREPREPARE for a view above 0
+		if m, ok := ref.Decode(raw); ok && m.Env == ref.EnvPP && m.V > 0 && a.own[m.Sender.Id] {
+			a.w.Mon.Stats["adv bare preprepare withheld"]++
+			return
+		}
 	}
 	f := a.w.Inject(from, to, raw)
 	if a.r.Intn(10) < 6 {
@@ -871,7 +882,7 @@ func (a *Adversary) mutate(h uint64) bool {
 			resign = true
 		}
 	case 12: // new view: vote list games
-		if env != ref.EnvNV || len(m.Votes) == 0 {
+		if env != ref.EnvNV || len(m.Votes) == 0 || m.Votes[0] == nil {
 			return false
 		}
 		switch a.r.Intn(4) {
